@@ -376,6 +376,7 @@ public:
     // connection the relay opened for an earlier, abandoned client (the start-up probe, a client
     // turned away while the server was down) may still arrive late and is recognised by its EOF.
     uint32_t nonce_ctr = 0;
+    long stray = 0; // foreign connections discarded while pairing
     std::vector<std::pair<uint32_t, int>> nonces; // (tag, slot) of the connections opened lately
     Outcome open_conn(Relay &r, Conn &cn, int i, bool bs)
     {
@@ -425,7 +426,17 @@ public:
                                 if (ngot == sizeof(other) && memcmp(got, other, sizeof(other)) == 0)
                                     whose = "the first message of an earlier client connection (slot " + std::to_string(nonces[q].second) + ", " + std::to_string(nonces.size() - 1 - q) + " connection(s) ago)";
                             }
-                            return failf("C20: the first message on the connection the relay opened for client connection %d is not what that client sent (%zu bytes: %s; it is %s)", i, ngot, hex(got, ngot, 8).c_str(), whose.c_str());
+                            if (whose[0] != 'n')
+                                return failf("C20: the first message on the connection the relay opened for client connection %d is not what that client sent (%zu bytes: %s; it is %s)", i, ngot, hex(got, ngot, 8).c_str(), whose.c_str());
+                            // somebody else's client on a port that is ours now (the harness processes of one
+                            // run draw from the same ephemeral range; seen: a TLS ClientHello on a btcp server):
+                            // not the connection we are waiting for
+                            stray++;
+                            x_close(cn.b);
+                            cn.b = Ep();
+                            cn.b.tag = 220 + i;
+                            ngot = 0;
+                            continue;
                         }
                         paired = true;
                     }
